@@ -819,6 +819,8 @@ class Mini:
                 return (last, args[0])
         if "Ctor(Variant, Fn)" in H.strip(H.strip(n)[2])[2]:
             return ("variant", self.canon(p), args)
+        if last == "new" and "NonZero" in p and len(args) == 1 and isinstance(args[0], int):
+            return ("Some", args[0]) if args[0] != 0 else "None"
         if p in ("std::vec::Vec::<T>::with_capacity", "std::vec::Vec::<T>::new"):
             if p.endswith("with_capacity") and isinstance(args[0], int) and args[0] > (1 << 32):
                 raise Panic(f"allocation of {args[0]} elements")
